@@ -15,6 +15,7 @@ import (
 	"github.com/marekgalovic/anndb/storage"
 	"github.com/marekgalovic/anndb/storage/raft"
 	"pgregory.net/rapid"
+	"verifharness/gen"
 	"verifharness/hutil"
 	"verifharness/pbt"
 )
@@ -22,11 +23,12 @@ import (
 func TestMain(m *testing.M) { pbt.Main(m) }
 
 type Case struct {
-	N    int   `json:"n"`    // members 1..16
-	R    int   `json:"r"`    // replication factor 1..8
-	P    int   `json:"p"`    // partitions 1..64
-	Seed int64 `json:"seed"` // math/rand seed of the shuffle
-	Via  int   `json:"via"`  // 0 allocator hook, 1 DatasetManager.Create proposal
+	N    int   `json:"n"`             // members 1..16
+	R    int   `json:"r"`             // replication factor 1..8
+	P    int   `json:"p"`             // partitions 1..64
+	Seed int64 `json:"seed"`          // math/rand seed of the shuffle
+	Via  int   `json:"via"`           // 0 allocator hook, 1 DatasetManager.Create proposal
+	Pre  int   `json:"pre,omitempty"` // via 1: the request already carries this many partitions (non-member / duplicate nodes), e.g. a descriptor from Get re-submitted
 }
 
 // captureGroup is a scripted raft.Group: it records the proposal and refuses it,
@@ -68,7 +70,12 @@ func placement(c Case) ([][]uint64, *pbt.Failure) {
 	if err != nil {
 		panic(err)
 	}
-	_, err = dm.Create(context.Background(), &pb.Dataset{Dimension: 4, PartitionCount: uint32(c.P), ReplicationFactor: uint32(c.R)})
+	req := &pb.Dataset{Dimension: 4, PartitionCount: uint32(c.P), ReplicationFactor: uint32(c.R)}
+	for i := 0; i < c.Pre; i++ {
+		// whatever a request says about placement is not the server's decision
+		req.Partitions = append(req.Partitions, &pb.Partition{Id: gen.ID(77000 + i).Bytes(), NodeIds: []uint64{424242, memberID(0), memberID(0)}})
+	}
+	_, err = dm.Create(context.Background(), req)
 	if err != errCaptured {
 		return nil, pbt.Failf("C16:create", "Create over the scripted group returned %v", err)
 	}
@@ -151,10 +158,10 @@ func check(c Case, o *pbt.Obs) *pbt.Failure {
 func TestPlacement(t *testing.T) {
 	pbt.Run(t, pbt.Prop[Case]{
 		ID: "C16", Name: "TestPlacement",
-		Rule: "rapid-generated (N in 1..16 members on a real cluster.Conn, R in 1..8, P in 1..64, shuffle seed), placement observed through the allocator hook and as embedded in the proposal of a real DatasetManager.Create over a scripted raft.Group; oracle: each partition has exactly min(R,N) pairwise distinct member ids; where the number of ordered placements A satisfies A^(P-1)>=1e12 not all partitions are identical; non-trivial = N>R and P>=2; distinct = distinct case JSON",
+		Rule: "rapid-generated (N in 1..16 members on a real cluster.Conn, R in 1..8, P in 1..64, shuffle seed), placement observed through the allocator hook and as embedded in the proposal of a real DatasetManager.Create over a scripted raft.Group (the request optionally carrying 1, 2 or 70 partitions of its own, as a re-submitted descriptor would); oracle: each partition has exactly min(R,N) pairwise distinct member ids; where the number of ordered placements A satisfies A^(P-1)>=1e12 not all partitions are identical; non-trivial = N>R and P>=2; distinct = distinct case JSON",
 		Gen: func(t *rapid.T) Case {
 			return Case{N: rapid.IntRange(1, 16).Draw(t, "n"), R: rapid.IntRange(1, 8).Draw(t, "r"), P: rapid.IntRange(1, 64).Draw(t, "p"),
-				Seed: rapid.Int64().Draw(t, "seed"), Via: rapid.IntRange(0, 1).Draw(t, "via")}
+				Seed: rapid.Int64().Draw(t, "seed"), Via: rapid.IntRange(0, 1).Draw(t, "via"), Pre: rapid.SampledFrom([]int{0, 0, 0, 1, 2, 70}).Draw(t, "pre")}
 		},
 		Check: check,
 	})
